@@ -277,6 +277,25 @@ def c16_bases(tier):
             r = rnd.choice(by[k])
             r["id"] = "%s/%s" % (cname, r["id"])
             out.append(r)
+    # directed: immediates whose top bit (at the operand width) is set, on low, extended and memory destinations: how the constant is
+    # spelt decides the SMART path of the tokenizer, which must stay confined to mov r64, imm
+    recs = [r for r in A.load_corpus(A.corpus("C03")) if r["status"] == "Supported" and len(r["ast"]["opds"]) == 2 and r["ast"]["opds"][1]["k"] == "i"
+            and not r["ast"]["opds"][1]["neg"] and r["ast"]["opds"][1]["radix"] == "hex" and not r["ast"]["opds"][1].get("digits")
+            and r["ast"]["mn"] in ("mov", "add", "test") and r["ast"]["opds"][0].get("w") in (32, 64)
+            and A.le(r["ast"]["opds"][1]["mag"]) in (0x80000000, 0xffffffff, 0x7fffffff)]
+    rnd = random.Random(A.SEED * 31 + 16)
+    rnd.shuffle(recs)
+    seen = set()
+    for r in recs:
+        o = r["ast"]["opds"][0]
+        key = (r["ast"]["mn"], o["k"], o.get("w"), o.get("n", -1) >= 8, A.le(r["ast"]["opds"][1]["mag"]))
+        if key in seen:
+            continue
+        seen.add(key)
+        r["id"] = "C03d/%s" % r["id"]
+        out.append(r)
+        if len(seen) >= (60 if tier == "quick" else 200):
+            break
     return out
 
 
